@@ -315,3 +315,4 @@ PROP = C13()
 
 PROP.rule += (" Strata added while closing seeded changes (DESIGN section 10): "
               "replace by position, moved item objects, repeated ~Parameter blocks, names with '_', '%' and case-quirk letters, np.nan values; invariants also checked right after every read.")
+PROP.rule += ' Round 8: slices read between edits.'
